@@ -236,7 +236,7 @@ theorem C20_term_always (ll : Nat) (fs : FS) (main : Str) (bytes : List Nat) (su
 open MontePyVerif.Refine MontePyVerif.Flatten in
 /-- **C20_flatten**: for every file system, top-level file and nesting depth — provided the top-level file's body and
     every file that gets served consist of lines on which the code's rules and MCNP's coincide (`FileOK`, `EntryOK`:
-    the named, decidable exclusions of `Refine.GoodLine` and `wellTerminated`) — what `read_input_syntax` yields,
+    the named, decidable exclusions of `Refine.GoodLine`) — what `read_input_syntax` yields,
     seen through `proj` (block and words of every input, read cards, errors), is exactly the Spec's flattened
     problem: the top file's inputs, then generation by generation the inputs of the files named by the read cards,
     each in the block of its card, in the order the cards are met, cut at the first error (malformed read card,
@@ -245,7 +245,7 @@ open MontePyVerif.Refine MontePyVerif.Flatten in
 theorem C20_flatten (ll : Nat) (fs : FS) (files : Spec.Files) (main : Str) (bytes : List Nat) (d extra : Nat)
     (hm : fs main = some bytes) (hd : Nesting ll fs main bytes d)
     (body : List Spec.Line)
-    (hmain : FileOK ll 0 (readFrontMatters (fileLines bytes)).2 body)
+    (hmain : FileOK ll (readFrontMatters (fileLines bytes)).2 body)
     (hserved : ∀ e ∈ servedCards ll fs main bytes d, EntryOK ll fs files (dirname main) e) :
     proj (readAll ll (extra + enoughFuel ll fs main bytes d) fs main) =
       Spec.cutS (Spec.fileStream ll (joinPath (dirname main)) [main] 0 body ++
@@ -279,7 +279,7 @@ theorem C20_flatten_spec (ll : Nat) (fs : FS) (files : Spec.Files) (main : Str) 
     (hm : fs main = some bytes) (hd : Nesting ll fs main bytes d)
     (lines body : List Spec.Line) (hfiles : files main = some lines)
     (hfront : (Spec.logicalInputs ll lines).inputs = Spec.inputsFrom ll 0 body)
-    (hmain : MontePyVerif.Flatten.FileOK ll 0 (readFrontMatters (fileLines bytes)).2 body)
+    (hmain : MontePyVerif.Flatten.FileOK ll (readFrontMatters (fileLines bytes)).2 body)
     (hserved : ∀ e ∈ servedCards ll fs main bytes d, MontePyVerif.Flatten.EntryOK ll fs files (dirname main) e) :
     MontePyVerif.Refine.proj (readAll ll (extra + enoughFuel ll fs main bytes d) fs main) =
       (Spec.flatten ll files (joinPath (dirname main)) d main).outs := by
@@ -358,10 +358,10 @@ def exFiles : Spec.Files := fun p =>
   else if p = ['d', '/', 'b'] then some ["3 0".toList] else none
 
 open MontePyVerif.Refine MontePyVerif.Flatten in
-example : FileOK 128 0 (readFrontMatters (fileLines exMain)).2 ["read file=a".toList, "2 0".toList] := by
+example : FileOK 128 (readFrontMatters (fileLines exMain)).2 ["read file=a".toList, "2 0".toList] := by
   have h : (readFrontMatters (fileLines exMain)).2 = fileLines [114, 101, 97, 100, 32, 102, 105, 108, 101, 61, 97, 10, 50, 32, 48, 10] := by decide
   rw [h]
-  exact MontePyVerif.Flatten.exFileOK 0 (by decide) _ _ (by decide) (by decide)
+  exact MontePyVerif.Flatten.exFileOK _ _ (by decide) (by decide)
 
 open MontePyVerif.Refine MontePyVerif.Flatten in
 example : ∀ e ∈ servedCards 128 exFs ['d', '/', 'm'] exMain 2, EntryOK 128 exFs exFiles (dirname ['d', '/', 'm']) e := by
@@ -373,9 +373,9 @@ example : ∀ e ∈ servedCards 128 exFs ['d', '/', 'm'] exMain 2, EntryOK 128 e
   simp only [List.mem_cons, List.not_mem_nil, or_false] at he
   rcases he with rfl | rfl
   · refine ⟨["1 0".toList, "READ FILE b".toList], by decide, ?_⟩
-    exact MontePyVerif.Flatten.exFileOK 0 (by decide) _ exA (by decide) (by decide)
+    exact MontePyVerif.Flatten.exFileOK _ exA (by decide) (by decide)
   · refine ⟨["3 0".toList], by decide, ?_⟩
-    exact MontePyVerif.Flatten.exFileOK 0 (by decide) _ exB (by decide) (by decide)
+    exact MontePyVerif.Flatten.exFileOK _ exB (by decide) (by decide)
 
 /-- and the flattening the theorem speaks of is the expected one: 2, then 1 (from `a`), then 3 (from `b`) -/
 example : Spec.inputsOf (Spec.flatten 128 exFiles (joinPath (dirname ['d', '/', 'm'])) 2 ['d', '/', 'm']).outs =
